@@ -199,7 +199,7 @@ func (e *Env) mainBarrier() bool {
 	select {
 	case <-ch:
 		return true
-	case <-time.After(10 * time.Second):
+	case <-time.After(30 * time.Second):
 		if e.Err == "" {
 			e.Err = "main barrier lost"
 		}
@@ -210,8 +210,8 @@ func (e *Env) mainBarrier() bool {
 // chanBarrier returns once the channel worker has handled everything queued before: an
 // updateChannelTooLong far beyond the difference limit only calls OnChannelTooLong.
 func (e *Env) chanBarrier(c int64) bool {
-	for attempt := 0; attempt < 5; attempt++ {
-		deadline := time.Now().Add(5 * time.Second)
+	for attempt := 0; attempt < 3; attempt++ {
+		deadline := time.Now().Add(10 * time.Second)
 		for e.W.chanDiffBusy(c) && time.Now().Before(deadline) {
 			time.Sleep(20 * time.Microsecond)
 		}
@@ -225,7 +225,8 @@ func (e *Env) chanBarrier(c int64) bool {
 		select {
 		case <-ch:
 			return true
-		case <-time.After(2 * time.Second):
+		case <-time.After(20 * time.Second):
+			// only a barrier dropped by sendOut's drain can get here; a merely slow one never does
 		}
 	}
 	if e.Err == "" {
